@@ -13,7 +13,8 @@ Local Open Scope N_scope.
 Record cfg := mkCfg {
   c_do_import : bool;      (* standalone: validates names itself *)
   c_no_open : bool; c_no_opendir : bool; c_writeback : bool; c_killpriv : bool; c_xattr : bool;
-  c_cache : N              (* 0 Never, 1 Metadata, 2 Auto, 3 Always *)
+  c_cache : N;             (* 0 Never, 1 Metadata, 2 Auto, 3 Always *)
+  c_ifh : bool             (* inode_file_handles: inodes are reopened with open_by_handle_at (needs CAP_DAC_READ_SEARCH) *)
 }.
 
 Record idata := mkIdata { id_host : N; id_mode : N; id_ref : N }.
@@ -263,14 +264,17 @@ Definition FATTR_ATIME := 16. Definition FATTR_MTIME := 32. Definition FATTR_KIL
 Definition create_opts (cf : cfg) : N :=
   if (c_cache cf =? 0) || (c_cache cf =? 1) then 1 else if c_cache cf =? 3 then 2 else 0.
 
-(* a host call made while the caller's credentials are installed, followed by do_lookup as root *)
-Definition create_then_lookup (s : pstate) (uid gid parent : N) (n : name)
+(* a host call made while the caller's credentials are installed, followed by do_lookup as root.
+   [file_inside]: the method calls data.get_file() INSIDE the set_creds scope (mkdir, symlink); with
+   inode_file_handles that is open_by_handle_at, which a non-root caller's credentials may not do *)
+Definition create_then_lookup (cf : cfg) (file_inside : bool) (s : pstate) (uid gid parent : N) (n : name)
     (call : creds -> host -> N -> res N * host) : reply * option N * pstate :=
   match assoc parent (p_inodes s) with
   | None => (RpErr EBADF, None, s)
   | Some d =>
       let '(r, s1) := with_creds uid gid s (fun s0 =>
-                        let (r, h') := call (p_creds s0) (p_host s0) (id_host d) in (r, with_host s0 h')) in
+                        if c_ifh cf && file_inside && negb (euid (p_creds s0) =? 0) then (Err EPERM, s0)
+                        else let (r, h') := call (p_creds s0) (p_host s0) (id_host d) in (r, with_host s0 h')) in
       match r with
       | Err e => (RpErr e, None, s1)
       | Ok _ => entry_reply (do_lookup s1 parent n)
@@ -366,19 +370,19 @@ Definition pstep (cf : cfg) (s : pstate) (q : req) : reply * option N * option N
   | QMkdir parent n mode umask uid gid =>
       match validate cf n with
       | Some e => noslot (RpErr e) s
-      | None => ent (create_then_lookup s uid gid parent n
+      | None => ent (create_then_lookup cf true s uid gid parent n
                        (fun c h d => sys_mkdirat c h d n (N.ldiff mode umask)))
       end
   | QMknod parent n mode rdev umask uid gid =>
       match validate cf n with
       | Some e => noslot (RpErr e) s
-      | None => ent (create_then_lookup s uid gid parent n
+      | None => ent (create_then_lookup cf false s uid gid parent n
                        (fun c h d => sys_mknodat c h d n (N.ldiff mode umask) rdev))
       end
   | QSymlink parent n target uid gid =>
       match validate cf n with
       | Some e => noslot (RpErr e) s
-      | None => ent (create_then_lookup s uid gid parent n
+      | None => ent (create_then_lookup cf true s uid gid parent n
                        (fun c h d => sys_symlinkat c h target d n))
       end
   | QCreate parent n mode umask flags fuse_flags uid gid =>
